@@ -48,9 +48,13 @@ let rec structure (p : port) : sport =
   let segs = parse_segs path in
   SPort ((if sub = None then segs else comps segs), args, meta,
          (match sub with Some l -> Some (List.map structure l) | None -> None))
-let names_ok_raw (t : port list) : bool =
+(* names_ok and the predicates of Ports/LookupSpec.v, one bit each (compared with the
+   generator's mirrors by the plug-in) *)
+let names_bits (t : port list) : string =
   let st = List.map structure t in
-  List.map render_port st = t && names_ok st
+  let rt = List.map render_port st = t in
+  String.concat "" (List.map (fun g -> if rt && g st then "1" else "0")
+    [names_ok; names_shape; enums_pos; sibling_prefix_free; key_prefix_free; no_digit_facing])
 let show_id (id : nat list) = String.concat "." (List.map (fun n -> string_of_int (int_of_nat n)) id)
 let show_ares = function
   | ANull -> "-" | AFound id -> show_id id | ACrash -> "CRASH" | AUnsupported -> "UNSUP"
@@ -79,7 +83,7 @@ let () = each_line (fun line ->
         let a = List.map (fun h -> show_ares (apropos t (bytes_of_hex h))) (split_on ';' addrs) in
         let i = List.map (fun h -> match index_op t (bytes_of_hex h) with
             | Some n -> string_of_int (int_of_nat n) | None -> "-") (split_on ';' names) in
-        Printf.sprintf "a=%s i=%s ok=%d" (String.concat ";" a) (String.concat ";" i) (if names_ok_raw t then 1 else 0)
+        Printf.sprintf "a=%s i=%s ok=%s" (String.concat ";" a) (String.concat ";" i) (names_bits t)
       | "search" :: tr :: hl :: hn :: o :: bs :: rq :: _ ->
         let t = parse_tree tr in
         let loc = bytes_of_hex hl and needle = bytes_of_hex hn in
